@@ -93,4 +93,14 @@ theorem C04_committed_is_stable {cfg : Config} (hnd : cfg.voterIds.Nodup) {s s' 
     Repl.IsCommitted cfg s' (s.nodes a).term ((s.nodes a).log.take (s.nodes a).commit) :=
   Repl.committed_stable hnd hr hfrom ((Repl.inv_reachable hnd hr).commit_ok a).2
 
+/-- **No node ever rewrites what it has applied**: between a state and any later state in
+    which the node's commit index is not lower, its log up to the old commit index is the
+    same list of entries — no replication request, from any leader of any term, truncates at
+    or below the commit index. -/
+theorem C04_applied_prefix_never_rewritten {cfg : Config} (hnd : cfg.voterIds.Nodup) {s s' : Repl.AState}
+    (hr : Repl.Reachable cfg s) (hfrom : Repl.ReachableFrom cfg s s') (n : Nat)
+    (hmono : (s.nodes n).commit ≤ (s'.nodes n).commit) :
+    (s'.nodes n).log.take (s.nodes n).commit = (s.nodes n).log.take (s.nodes n).commit :=
+  Repl.applied_prefix_stable hnd hr hfrom n hmono
+
 end Raft
